@@ -482,12 +482,21 @@ func aloneDigests(b *Build, bt Batch, k int, opHashes bool) (*doneEv, *doneEv) {
 // of its specification, not of what the process did before).  Returns the path of a replay file, or "".
 func checkAlone(b *Build, results []*BatchResult, verifSeed uint64, root string, known KnownFindings, logf func(string, ...interface{}), ev *Evidence) string {
 	var dev *BatchResult
-	devN := 0
+	devN, na := 0, 0
+	defer func() {
+		if na > 0 {
+			logf("O8 not applicable: a run executed alone gave different results in two fresh processes (%d batch(es)): results vary per process for a reason other than call history", na)
+		}
+	}()
 	for _, r := range results {
 		if r == nil || !r.AloneChecked {
 			continue
 		}
 		ev.AloneChecked++
+		if r.AloneNA {
+			na++
+			continue
+		}
 		if r.AloneHash == "" || r.AloneRun >= len(r.Done) || r.AloneHash == r.Done[r.AloneRun].ResHash {
 			continue
 		}
